@@ -431,7 +431,14 @@ func (s *controlledSelector) HandleSuccessResponse(
 
 	pair.state = CandidatePairStateSucceeded
 	s.log.Tracef("Found valid candidate pair: %s", pair)
-	if pair.nominateOnBindingSuccess {
+	if pair.nominateOnBindingSuccess && pair.deferredNominationValue != nil {
+		// Renomination: the deferred nomination takes effect only if no later
+		// nomination was accepted in the meantime, and regardless of priorities.
+		if s.lastNomination != nil && *s.lastNomination == *pair.deferredNominationValue &&
+			s.agent.getSelectedPair() != pair {
+			s.agent.setSelectedPair(pair)
+		}
+	} else if pair.nominateOnBindingSuccess {
 		if selectedPair := s.agent.getSelectedPair(); selectedPair == nil ||
 			(selectedPair != pair &&
 				(!s.agent.needsToCheckPriorityOnNominated() || selectedPair.priority() <= pair.priority())) {
@@ -499,6 +506,7 @@ func (s *controlledSelector) HandleBindingRequest(message *stun.Message, local, 
 			// candidate pair state to Failed, and set the checklist state to
 			// Failed.
 			pair.nominateOnBindingSuccess = true
+			pair.deferredNominationValue = nominationValue
 		}
 	}
 
